@@ -53,6 +53,12 @@ def e_aperture_photometry(inp):
     return aperture_photometry(inp['data'], ap, error=inp.get('error'), mask=inp.get('mask'), method=inp.get('method', 'exact'))
 
 
+def e_aperture_photometry_subpixel(inp):
+    from photutils.aperture import CircularAperture, EllipticalAperture, aperture_photometry
+    ap = [CircularAperture(_positions(), 4.3), EllipticalAperture(_positions(), 4.0, 2.5, theta=0.3)]
+    return [aperture_photometry(inp['data'], ap, error=inp.get('error'), mask=inp.get('mask'), method='subpixel', subpixels=k) for k in (1, 3)]
+
+
 def e_do_photometry(inp):
     from photutils.aperture import EllipticalAperture
     ap = EllipticalAperture(_positions() + [(-4.0, 3.0), (0.2, 29.4)], 4.0, 2.0, theta=0.4)
@@ -407,7 +413,8 @@ def e_calc_total_error(inp):
     d, e = inp['data'], inp.get('error')
     if hasattr(d, 'unit'):      # count units are required: adu data with a gain in electron / adu
         return calc_total_error(d.value * u.adu, e.value * u.adu, 2.0 * u.electron / u.adu)
-    return calc_total_error(d, e, inp.get('gain', 2.0))
+    g = inp.get('gain_map')
+    return calc_total_error(d, e, inp.get('gain', 2.0) if g is None else g)
 
 
 def e_utils(inp):
@@ -472,6 +479,7 @@ def e_epsf(inp):
 ENTRIES = {
     'aperture_photometry': dict(f=e_aperture_photometry, uses=['data', 'error', 'mask']),
     'do_photometry': dict(f=e_do_photometry, uses=['data', 'error', 'mask']),
+    'aperture_photometry_subpixel': dict(f=e_aperture_photometry_subpixel, uses=['data', 'error', 'mask']),
     'aperture_mask': dict(f=e_aperture_mask, uses=['data', 'mask']),
     'aperture_mask_edge': dict(f=e_aperture_mask_edge, uses=['data']),
     'stats_large': dict(f=e_stats_large, uses=['data']),
@@ -498,7 +506,7 @@ ENTRIES = {
     'psf_models': dict(f=e_psf_models, uses=[]),
     'make_model_image': dict(f=e_make_model_image, uses=[]),
     'isophote': dict(f=e_isophote, uses=[]),
-    'calc_total_error': dict(f=e_calc_total_error, uses=['data', 'error']),
+    'calc_total_error': dict(f=e_calc_total_error, uses=['data', 'error', 'gain_map']),
     'utils': dict(f=e_utils, uses=['data']),
     'morphology': dict(f=e_morphology, uses=['data', 'mask']),
     'image_depth': dict(f=e_image_depth, uses=['data', 'mask']),
